@@ -34,6 +34,9 @@ def run_case(case):
     want = [{'timex': iso, 'type': 'date', 'value': iso}]
     bucket = '%s:%s' % (c, case['layout'])
     results = []
+    if case.get('pre') and c == 'en-us':
+        # a related query (the same date under a modifier) asked a moment earlier must not influence the plain date
+        G.parse(c, case['pre'].format(expr), case['ref'])
     for ref in (case['ref'], case['ref2']):
         got = G.parse(c, q, ref)
         results.append(got)
@@ -51,9 +54,10 @@ def run_case(case):
 
 def cases(culture):
     names = sorted(G.layouts(culture))
-    return st.builds(lambda d, l, r1, r2, ci: {'culture': culture, 'date': d.isoformat(), 'layout': l, 'ref': r1, 'ref2': r2,
-                                               'carrier': G.DATE_CARRIERS[culture][ci % len(G.DATE_CARRIERS[culture])]},
-                     G.dates(), st.sampled_from(names), G.refs(), G.refs(), st.integers(0, 11))
+    return st.builds(lambda d, l, r1, r2, ci, pre: {'culture': culture, 'date': d.isoformat(), 'layout': l, 'ref': r1, 'ref2': r2,
+                                                    'carrier': G.DATE_CARRIERS[culture][ci % len(G.DATE_CARRIERS[culture])], 'pre': pre},
+                     G.dates(), st.sampled_from(names), G.refs(), G.refs(), st.integers(0, 11),
+                     st.sampled_from([None, None, None, 'I left before {}', 'after {} it rained', 'since {}']))
 
 
 def every_day():
